@@ -18,7 +18,16 @@ func mkPod(ns, name, rv string, labels map[string]string) *corev1.Pod {
 	return &corev1.Pod{ObjectMeta: metav1.ObjectMeta{Namespace: ns, Name: name, ResourceVersion: rv, Labels: labels}}
 }
 
-func objKey(o metav1.Object) string { return o.GetNamespace() + "/" + o.GetName() }
+func objKey(o metav1.Object) string { return keyStr(o.GetNamespace(), o.GetName()) }
+
+// keyStr: namespace/name, unambiguous also when one of the two contains the separator (then both
+// are quoted): ("a/b","c") and ("a","b/c") are different objects.
+func keyStr(ns, name string) string {
+	if strings.Contains(ns, "/") || strings.Contains(name, "/") {
+		return strconv.Quote(ns) + "/" + strconv.Quote(name)
+	}
+	return ns + "/" + name
+}
 
 func objStr(o metav1.Object) string {
 	if o == nil {
